@@ -2,6 +2,7 @@ package verifh
 
 import (
 	"fmt"
+	"strconv"
 	"testing"
 
 	"github.com/nulab/autog/graph"
@@ -155,3 +156,58 @@ func checkC01(c *Case) *Outcome {
 }
 
 func TestC01(t *testing.T) { runGenerated(t, propC01) }
+
+// TestC01Exhaustive: every ordered edge list of length 1..M over N nodes (self-loops, parallel and antiparallel edges
+// included) x the complete algorithm grid 3 cycle breakers x 2 layerers x 5 positioners x 5 routers, with uniform 40x20
+// nodes and positive spacings (inside D_S, so splines are included). N, M from VERIF_C01_NODES / VERIF_C01_EDGES.
+func TestC01Exhaustive(t *testing.T) {
+	startWatchdog()
+	N, _ := strconv.Atoi(getenv("VERIF_C01_NODES", "3"))
+	M, _ := strconv.Atoi(getenv("VERIF_C01_EDGES", "3"))
+	nsh, _ := strconv.Atoi(getenv("VERIF_NSHARDS", "1"))
+	st := newStats("C01", propC01.Rule)
+	complete := false
+	defer func() { st.write(complete) }()
+	var pairs []iedge
+	for a := 0; a < N; a++ {
+		for b := 0; b < N; b++ {
+			pairs = append(pairs, iedge{a, b})
+		}
+	}
+	idx, lists := 0, 0
+	var rec func(es []iedge)
+	rec = func(es []iedge) {
+		if len(es) >= 1 {
+			idx++
+			lists++
+			if idx%nsh == cfg.Shard {
+				for _, cb := range allCB {
+					for _, lay := range allLay {
+						for _, pos := range allPos {
+							for _, rt := range allRt {
+								if rt == RtSplines && pos == PosBK {
+									continue // outside D_S (known finding K3)
+								}
+								c := &Case{Edges: toEdges(es, nid), CB: cb, GreedySeed: int64(idx), Lay: lay, Pos: pos, Rt: rt, SzMode: SzFixed, Fixed: Sz{40, 20}, NS: ptr(10.0), LS: ptr(30.0)}
+								o := runCase(propC01, c, st)
+								if o.Err != nil {
+									writeFailCase("C01", c, o.Err)
+									t.Fatalf("property C01 violated (exhaustive enumeration): %v\ncase: %s", o.Err, mustRaw(c))
+								}
+							}
+						}
+					}
+				}
+			}
+		}
+		if len(es) == M {
+			return
+		}
+		for _, p := range pairs {
+			rec(append(es, p))
+		}
+	}
+	rec(nil)
+	complete = true
+	st.Extra["exhaustive_c01"] = fmt.Sprintf("all ordered edge lists of length 1..%d over %d nodes (%d lists) x 3 cycle breakers x 2 layerers x 5 positioners x 5 routers (splines with Brandes-Koepf excluded: K3), uniform 40x20 nodes", M, N, lists)
+}
